@@ -6,7 +6,7 @@ import itertools
 
 import numpy as np
 
-from ..core import AnalysisError, call_name, dotted, func_params, is_self_attr, kwarg
+from ..core import AnalysisError, call_name, dotted, func_params, func_param_defaults, is_self_attr, kwarg
 from ..flow import dominating_atoms, block_of, enclosing_loops
 from .. import fdx
 from .. import fields as F
@@ -1291,3 +1291,57 @@ def factoring_rule(ctx, rid):
         except fdx.Unsupported as ex:
             raise AnalysisError(f'cannot interpret {fname}: {ex}')
         ctx.ob(rid, f'cirq.linalg.transformations.{fname}:entangled-refused', refused, '' if refused else f'{fname}(GHZ, [0], validate=True) accepts an entangled tensor', m.rel, fn.lineno)
+
+
+# ---------------------------------------------------------------------------------------------------------------------
+# A measurement key can be recorded several times; the classical data store keeps every record.  "The" value of a key -
+# what a classical control reads, what simulate() reports - is the latest record (get_digits / get_int default to index -1).
+def latest_record_rule(ctx, rid, floor=3):
+    repo = ctx.repo
+    ctx.rule(rid, 'latest record: wherever a single record is picked out of a per-key record list (the value of `.records` / `.channel_records` of a classical data store, '
+             'iterated with .items() or subscripted by key) with a constant index, that index is -1, and get_digits / get_int default to index -1 - classical controls read the latest '
+             'record, so a report built from another one disagrees with the feed-forward that actually happened', floor=floor, style='COH')
+    ci = repo.cls('cirq.value.classical_data.ClassicalDataDictionaryStore')
+    for mn in ('get_digits', 'get_int'):
+        fn = ci.methods.get(mn)
+        if fn is None:
+            raise AnalysisError(f'ClassicalDataDictionaryStore.{mn} vanished')
+        dflt = func_param_defaults(fn).get('index')
+        ok = dflt is not None and ast.unparse(dflt) == '-1'
+        ctx.ob(rid, f'{ci.qual}.{mn}:default-index', ok, '' if ok else f'{mn} defaults to index {ast.unparse(dflt) if dflt is not None else "?"} instead of -1 (the latest record)', ci.mod.rel, fn.lineno)
+    for m in sorted(repo.modules.values(), key=lambda x: x.rel):
+        if not m.rel.startswith(('cirq-core/cirq/sim/', 'cirq-core/cirq/value/', 'cirq-core/cirq/ops/', 'cirq-core/cirq/study/', 'cirq-core/cirq/work/')) or 'records' not in m.src:
+            continue
+        for fn in [f for f in ast.walk(m.tree) if isinstance(f, (ast.FunctionDef, ast.AsyncFunctionDef))]:
+            # variables bound to one per-key record list: `for k, v in X.records.items()` / `v = X.records[k]`
+            lists = {}
+            for n in ast.walk(fn):
+                it = tgt = None
+                if isinstance(n, (ast.For, ast.comprehension)):
+                    it, tgt = n.iter, n.target
+                if it is not None and isinstance(it, ast.Call) and isinstance(it.func, ast.Attribute) and it.func.attr in ('items', 'values') \
+                        and isinstance(it.func.value, ast.Attribute) and it.func.value.attr in ('records', 'channel_records', '_records', '_channel_records'):
+                    v = tgt.elts[1] if it.func.attr == 'items' and isinstance(tgt, ast.Tuple) and len(tgt.elts) == 2 else tgt
+                    if isinstance(v, ast.Name):
+                        lists[v.id] = it.func.value.attr
+            k = 0
+            for n in ast.walk(fn):
+                if not (isinstance(n, ast.Subscript) and isinstance(n.ctx, ast.Load)):
+                    continue
+                base = n.value
+                is_list = (isinstance(base, ast.Name) and base.id in lists) or (
+                    isinstance(base, ast.Subscript) and isinstance(base.value, ast.Attribute) and base.value.attr in ('records', 'channel_records', '_records', '_channel_records'))
+                if not is_list:
+                    continue
+                idx = n.slice
+                cval = None
+                if isinstance(idx, ast.Constant) and isinstance(idx.value, int):
+                    cval = idx.value
+                elif isinstance(idx, ast.UnaryOp) and isinstance(idx.op, ast.USub) and isinstance(idx.operand, ast.Constant):
+                    cval = -idx.operand.value
+                if cval is None:
+                    continue        # a variable index (the caller's choice) or a slice
+                k += 1
+                ok = cval == -1
+                ctx.ob(rid, f'{m.name}.{fn.name}:record-pick#{k}', ok, '' if ok else
+                       f'`{ast.unparse(n)}` picks record {cval} of a key that may have been recorded several times; the value of a key is its latest record (index -1)', m.rel, n.lineno)
